@@ -14,7 +14,7 @@
    shows cannot occur with fuel above the rank. *)
 From Coq Require Import ZArith NArith List Bool.
 From NG Require Import Gen.LifeConsts V2.Life V2.Life_proofs V2.Life_scope V2.Life_fuel V2.Life_now
-                       V2.Life_examples.
+                       V2.Life_examples V2.Life_count V2.Life_activation V2.Life_activation_examples.
 Import ListNotations.
 Open Scope N_scope.
 
@@ -106,51 +106,125 @@ Theorem C06_frame :
 Proof. exact (conj abort_frame finish_frame). Qed.
 Print Assumptions C06_frame.
 
-(* Activation.  (1),(2) an instance that ends by itself (d = false) emits, as its last events,
-   FlowFailed / FlowFinished followed by exactly the restart (StartFlow pushed left, source = its
-   reference instance, marker = its count) iff it is activated and has not already started its
-   next instance; ended by an activator (d = true) it is not restarted; nothing emitted before
-   concerns f.  (3) the main flow restarts in place.  (4) an activator ends while others remain:
-   only the count is decremented.  (5),(6) the last activator ends: count 0, the reference instance
-   and its restarted instances are not running.  (7) an activated flow that reaches its end without ever having waited is not finished (runs
-   once, stays activated).
-   PARTIAL: that `activated` equals the number of running activators (incremented where StartFlow
-   is processed) and that the emitted StartFlow creates the new instance are outside the focused
-   model; both are checked on the implementation by the activation oracle of harness/c06.py. *)
-Theorem C06_activation_partial :
+(* ACTIVATION.  StartFlow processing (START_FLOW branch of
+   _process_internal_events_without_default_matchers incl. both done-source guards,
+   _get_reference_activated_flow_instance with the parameter comparison `pm` abstract, and
+   _start_flow) is part of the model (`start_flow`), tied by the same snapshot correspondence.
+
+   THE INVARIANT, over ANY sequence of the modelled operations - a StartFlow event is processed
+   (start / activate / queued restart), an instance fails or is stopped, an instance finishes,
+   a scope ends, action events, status moves:
+     for every reference instance r (linked to a parent of another flow) whose count is not 0,
+       activated(r) = number of child-list entries of LIVE instances that refer to r        (CntInv)
+   together with: unique uids, child entries and parents exist, the hierarchy is well-founded, and an
+   entry of the same flow in a child list is a restarted instance linked to that parent (famk).
+   Side conditions of a run (`aoks`): the uid of a new instance is fresh; a start sent by an
+   instance of ANOTHER flow carries the marker 0 or 1 (`activate` sends True; only restarts carry
+   the count - checked on every real StartFlow event by the harness); a (re-)activation keeps the
+   hierarchy well-founded (checked on every real state); the flow that finishes is not the main flow
+   (which restarts in place and keeps its child entries - every activator is one of its descendants
+   and ends with it; `finish_main` below). *)
+Theorem C06_activation_count :
+  forall rel fuel l s s',
+    Inv s -> famk s -> arun rel fuel l s = Ok s' -> aoks rel fuel l s -> Inv s' /\ famk s'.
+Proof. exact arun_inv_fam. Qed.
+Print Assumptions C06_activation_count.
+
+(* The three clauses of the property text.
+   (a) An instance that ends by itself emits, as its last events, FlowFailed / FlowFinished followed
+       by exactly the restart (StartFlow pushed left, source = its reference instance, marker = its
+       count) iff it is activated and has not already started its next instance; ended by an
+       activator (d = true) it is not restarted; nothing emitted before concerns f [a1, a2].  When
+       that restart is processed while the flow is still activated it creates the new instance
+       (WAITING = listening) and links it under a reference instance of the flow whose count is not
+       0, with the count as marker [a3].
+   (b) An activated flow that reaches its end without ever having waited (status STARTING) is marked
+       STARTED and is NOT finished: it runs once, no restart, the count is untouched [b].
+   (c) An activator ends while others remain: only the count is decremented [c0].  THE LAST
+       ACTIVATOR ENDS - after an instance failed / finished no live instance holds an entry of r any
+       more: the count of r is 0, r is not listening and the restarted instances under r are not
+       listening [c1]; a restart that is still queued then is dropped, nothing is created [c2]; so
+       is a start / activation queued by a sender that has ended meanwhile [c3]. *)
+Theorem C06_activation :
+  (* a1 *)
   (forall rk n s f d s' i,
      ranked rk s -> abort n s f d = Ok s' -> proceeds s f d = true -> getf s f = Some i ->
      live (i_status i) = true ->
      exists pre, out s' = out s ++ pre ++ EFailed f :: (if d then [] else restart_events s i f) /\
                  Forall (emit_ok (below rk f) anyA) pre) /\
+  (* a2 *)
   (forall rk n s f d s' i,
      ranked rk s -> finish n s f d = Ok s' -> proceeds s f d = true -> getf s f = Some i ->
      listening (i_status i) = true -> i_flow i <> main_id ->
      exists pre, out s' = out s ++ pre ++ EFinished f :: (if d then [] else restart_events s i f) /\
                  Forall (emit_ok (below rk f) anyA) pre) /\
+  (* a3 *)
+  (forall pm s r ri e,
+     Inv s -> getf s r = Some ri -> refshape s r -> i_activated ri <> 0%Z -> pm r = true ->
+     i_flow ri <> main_id ->
+     sf_flow e = i_flow ri -> sf_src e = Some r -> sf_activated e <> 0%Z -> getf s (sf_uid e) = None ->
+     exists s' r0 r0i,
+       start_flow pm s e = Ok s' /\
+       getf s r0 = Some r0i /\ i_flow r0i = i_flow ri /\ i_activated r0i <> 0%Z /\ refshape s r0 /\
+       getf s' (sf_uid e) = Some (mkInst (i_flow ri) FWaiting (Some r0) [] [] [] (sf_activated e) false) /\
+       getf s' r0 = Some (add_child (sf_uid e) r0i) /\
+       lst s' (sf_uid e) = true) /\
+  (* b *)
+  (forall activated waiting,
+     (0 < activated)%Z -> end_of_slide FStarting activated true waiting = (FStarted, true, false)) /\
+  (* c0 *)
+  (forall n s f i,
+     getf s f = Some i -> is_ref_activated s i = Ok true -> i_activated i <> 1%Z ->
+     abort (S n) s f true = Ok (modf s f (set_activated (i_activated i - 1)%Z)) /\
+     finish n s f true = Ok (modf s f (set_activated (i_activated i - 1)%Z))) /\
+  (* c1 *)
+  (forall rel fuel s o s' r,
+     Inv s -> famk s -> (match o with AAbort _ _ | AFinish _ => True | _ => False end) ->
+     astep rel fuel s o = Ok s' -> aok s o s' ->
+     refshape s r -> (0 < act s r)%Z -> E s' r = 0%Z ->
+     act s' r = 0%Z /\ family_down s s' r) /\
+  (* c2 *)
+  (forall pm s r ri e,
+     getf s r = Some ri -> done (i_status ri) = true -> i_activated ri = 0%Z ->
+     sf_src e = Some r -> sf_activated e <> 0%Z -> start_flow pm s e = Ok s) /\
+  (* c3 *)
+  (forall pm s p pi e,
+     getf s p = Some pi -> done (i_status pi) = true -> i_flow pi <> sf_flow e -> sf_src e = Some p ->
+     start_flow pm s e = Ok s).
+Proof.
+  exact (conj abort_emits (conj finish_emits (conj restart_processed (conj end_of_slide_activated
+        (conj deactivate_not_last (conj last_activator_ends (conj queued_restart_dropped
+        queued_start_of_ended_sender_dropped))))))).
+Qed.
+Print Assumptions C06_activation.
+
+(* What the counting theorem deliberately does NOT cover, kept visible:
+   (1) the main flow restarts in place (status WAITING) and keeps its child entries;
+   (2) a top-level deactivation of one instance (count 1: the instance and its restarted instances
+       stop; this is what the end of the last activator calls);
+   (3) an EXPLICIT deactivation (`deactivate X` / StopFlow(.., deactivate=True) = a top-level
+       _abort_flow(X, deactivate_flow=True)) decrements the count but leaves the entry of the activator
+       in place: afterwards count < entries (vm_compute witness) - the invariant is about flows that
+       END, as the property text is. *)
+Theorem C06_activation_partial :
   (forall rk n s f d s' i,
      ranked rk s -> finish n s f d = Ok s' -> proceeds s f d = true -> getf s f = Some i ->
      listening (i_status i) = true -> i_flow i = main_id ->
      (exists i', getf s' f = Some i' /\ i_status i' = FWaiting) /\
      exists pre, out s' = out s ++ pre /\ Forall (emit_ok (below rk f) anyA) pre) /\
-  (forall n s f i,
-     getf s f = Some i -> is_ref_activated s i = Ok true -> i_activated i <> 1%Z ->
-     abort (S n) s f true = Ok (modf s f (set_activated (i_activated i - 1)%Z)) /\
-     finish n s f true = Ok (modf s f (set_activated (i_activated i - 1)%Z))) /\
   (forall rk n s f s' i,
      ranked rk s -> getf s f = Some i -> is_ref_activated s i = Ok true -> i_activated i = 1%Z ->
      abort n s f true = Ok s' ->
-     lv s' f = false /\ exists i', getf s' f = Some i' /\ i_activated i' = 0%Z) /\
-  (forall rk n s f s' i,
-     ranked rk s -> getf s f = Some i -> is_ref_activated s i = Ok true -> i_activated i = 1%Z ->
-     abort n s f true = Ok s' ->
+     (lv s' f = false /\ exists i', getf s' f = Some i' /\ i_activated i' = 0%Z) /\
      forall c ci, In c (i_children i) -> getf s c = Some ci -> i_flow ci = i_flow i ->
        i_parent ci = Some f -> lst s' c = false) /\
-  (forall activated waiting,
-     (0 < activated)%Z -> end_of_slide FStarting activated true waiting = (FStarted, true, false)).
+  explicit_deactivation_breaks_count.
 Proof.
-  exact (conj abort_emits (conj finish_emits (conj finish_main (conj deactivate_not_last
-        (conj deactivate_last (conj deactivate_last_children end_of_slide_activated)))))).
+  exact (conj finish_main
+        (conj (fun rk n s f s' i Hr E Href H1 H =>
+                 conj (deactivate_last rk n s f s' i Hr E Href H1 H)
+                      (deactivate_last_children rk n s f s' i Hr E Href H1 H))
+              explicit_deactivation_witness)).
 Qed.
 Print Assumptions C06_activation_partial.
 
